@@ -38,6 +38,7 @@ type xcase struct {
 	src          string // len size limited stat opaque
 	backend      string // peer peerperm os osalloc req reqalloc
 	regular      bool
+	ro           bool // read APIs: the file is opened read-only (Client.Open), which the request server serves through FileReader
 }
 
 func planStr(m map[uint64]uint32) string {
@@ -59,7 +60,7 @@ func planStr(m map[uint64]uint32) string {
 func (x *xcase) kv() []string {
 	return []string{kvs("api", x.api), kvi("p", x.p), kvi("conc", x.conc), kvb("cr", x.cr), kvb("cw", x.cw), kvb("fstat", x.fst),
 		kvi("flen", x.flen), kvi("off", x.off), kvi("len", x.n), kvi("maxtx", x.maxtx), kvs("rfail", planStr(x.rfail)), kvs("wfail", planStr(x.wfail)),
-		kvs("src", x.src), kvb("regular", x.regular), kvs("be", x.backend)}
+		kvs("src", x.src), kvb("regular", x.regular), kvs("be", x.backend), kvb("ro", x.ro)}
 }
 
 type sizedReader struct{ r *bytes.Reader }
@@ -139,7 +140,8 @@ func runX(x *xcase, seed int64) (*xresult, error) {
 		finalFile = func() []byte { b, _ := os.ReadFile(name); return b }
 	case "req", "reqalloc":
 		fs := newMemFS()
-		fs.get("/f", true).data = append([]byte(nil), initial...)
+		mf := fs.get("/f", true)
+		mf.data, mf.rfail, mf.wfail = append([]byte(nil), initial...), x.rfail, x.wfail
 		p, err := newPair(pairOpt{reqServer: true, handlers: fs.handlers(), alloc: x.backend == "reqalloc", maxTx: uint32(x.maxtx), clientOpts: opts})
 		if err != nil {
 			return nil, err
@@ -152,7 +154,11 @@ func runX(x *xcase, seed int64) (*xresult, error) {
 	done := make(chan struct{})
 	go func() {
 		defer close(done)
-		f, err := cl.OpenFile(name, os.O_RDWR)
+		flags := os.O_RDWR
+		if x.ro && !isWriteAPI(x.api) {
+			flags = os.O_RDONLY
+		}
+		f, err := cl.OpenFile(name, flags)
 		if err != nil {
 			res.err = fmt.Errorf("open: %w", err)
 			return
